@@ -43,12 +43,12 @@ def outcome_fn(assign):
 
 def bounds(tier, seed):
     return {"identifiers": IDS, "request_set_size": 3, "licenses_states": ["absent", "empty", "target-present"], "failure_kinds": FAILS,
-            "failing_identifiers_per_run": 1 if tier == "quick" else 2, "cwds": ["root", "subdir", "licenses"], "vcs": ["none", "git"],
+            "failing_identifiers_per_run": 2, "cwds": ["root", "subdir", "licenses"], "vcs": ["none", "git"],
             "options": ["none", "--output", "--source file", "--source dir", "--all"], "histories": "every ordered pair of 6 download commands"}
 
 
 def cases(tier, seed):
-    nfail = 1 if tier == "quick" else 2
+    nfail = 2
     for n in range(1, 4):
         for req in itertools.combinations(IDS, n):
             net_ids = sorted({strip_plus(i) for i in req if not i.startswith("LicenseRef-") and i != "Nope"})
